@@ -129,6 +129,7 @@ def observer(got, pred, sp, call, sg, prog, ctx, part):
 
 def run(report, tier):
     apirun.run_config(report, 'MC_C10', observer=observer, report_kinds=('C', 'CL'))
+    apirun.run_config(report, 'MC_C10M', observer=observer, report_kinds=('C', 'CL'))
     return report.finish(
         rule='every Api program of <= MaxCalls calls over the C10 signature ending in a comparison (scalar / vector / vector-expression '
              'lhs x Python and NumPy scalars, parameters, expressions, vectors, lists, 1-D and 2-D arrays x three senses x reflected): '
